@@ -377,6 +377,16 @@ def o4_o5_cases(state):
     z3_, ph4 = cs3.coord_system.base_scalars()[2], cs4.coord_system.base_scalars()[2]
     if (z3_ + 2 * ph4).subs(ph4, 1) != z3_ + 2 or sp.diff(z3_ * ph4, ph4) != z3_:
         bad.append("base scalars of two transformed systems alias under subs/diff")
+    # rotated systems: a new object for EVERY angle, the boundary values 0 / 0.0 / theta - theta included
+    from symplyphysics.core.coordinate_systems.coordinate_systems import coordinates_rotate
+    theta = sp.Symbol("theta", real=True)
+    for ang in (0, sp.S.Zero, 0.0, theta - theta, sp.pi / 3, theta, 2 * sp.pi):
+        csr = coordinates_rotate(cs1, ang, cs1.coord_system.k)
+        csr2 = coordinates_rotate(cs1, ang, cs1.coord_system.k)
+        xr, x1 = csr.coord_system.base_scalars()[0], cs1.coord_system.base_scalars()[0]
+        if csr is cs1 or csr.coord_system == cs1.coord_system or csr.coord_system == csr2.coord_system or xr == x1 \
+                or (x1 + 2 * xr).subs(xr, 1) != x1 + 2 or sp.diff(x1 * xr, xr) != x1:
+            bad.append(f"system rotated by {ang!r} aliases its source (or a second rotation by the same angle)")
     v1, v2 = VectorSymbol("v"), VectorSymbol("v")
     if v1 == v2:
         bad.append("two VectorSymbols with equal display names alias")
